@@ -325,4 +325,189 @@ theorem addSlots_walk (eb : Nat) (slots : List (Bytes × Bytes)) :
             (by rw [htot]; simp [List.append_assoc] <;> omega)
           rw [this]; simp
 
+/-! ### reading back: whatever `check` accepts, the loader returns exactly the expected pairs -/
+
+def itemsPairs (items : List Item) : List (Bytes × Bytes) :=
+  (items.filter (fun it => it.key ≠ [])).map (fun it => (it.key, it.value))
+
+theorem walk_of_check (eb total : Nat) : ∀ (fuel : Nat) (ex : List (Bytes × Bytes)) (first : Bool) (bs : Bytes),
+    checkWalk eb total fuel ex first bs = true →
+    ∃ items, walk total fuel bs = some items ∧ itemsPairs items = ex := by
+  intro fuel
+  induction fuel with
+  | zero => intro ex first bs h; simp [checkWalk] at h
+  | succ fuel ih =>
+    intro ex first bs h
+    unfold checkWalk at h
+    unfold walk
+    by_cases hff : bs = [0xFF]
+    · simp only [hff, if_true] at h ⊢
+      refine ⟨[], rfl, ?_⟩
+      cases ex with
+      | nil => rfl
+      | cons _ _ => simp at h
+    · simp only [hff, if_false] at h ⊢
+      split at h
+      · rename_i kn r1 hk
+        by_cases hl : r1.length < kn
+        · simp [hl] at h
+        · simp only [hl, if_false] at h ⊢
+          split at h
+          · rename_i vn r3 hv
+            by_cases hl2 : r3.length < vn
+            · simp [hl2] at h
+            · simp only [hl2, if_false] at h ⊢
+              by_cases hke : r1.take kn = []
+              · simp only [hke, if_true, Bool.and_eq_true] at h
+                obtain ⟨items, hw, hp⟩ := ih ex first _ h.2
+                refine ⟨_, by rw [hw], ?_⟩
+                simp [itemsPairs, hke] at hp ⊢
+                exact hp
+              · simp only [hke, if_false] at h
+                cases ex with
+                | nil => simp at h
+                | cons e ex' =>
+                  obtain ⟨u, p⟩ := e
+                  simp only [Bool.and_eq_true, beq_iff_eq] at h
+                  obtain ⟨⟨⟨⟨hu, hp⟩, _⟩, _⟩, hrec⟩ := h
+                  obtain ⟨items, hw, hpairs⟩ := ih ex' false _ hrec
+                  refine ⟨_, by rw [hw], ?_⟩
+                  have hune : u ≠ [] := by rw [← hu]; exact hke
+                  simp only [itemsPairs] at hpairs ⊢
+                  subst hpairs
+                  simp [hu, hp, hune]
+          · simp at h
+      · simp at h
+
+theorem dictInsert_empty_filter (d : List (Bytes × Bytes)) (v : Bytes) :
+    (dictInsert d [] v).filter (fun e => e.1 ≠ []) = d.filter (fun e => e.1 ≠ []) := by
+  have hmap : (d.map (fun e => if e.1 == ([] : Bytes) then (([] : Bytes), v) else e)).filter (fun e => e.1 ≠ [])
+      = d.filter (fun e => e.1 ≠ []) := by
+    induction d with
+    | nil => rfl
+    | cons e rest ih =>
+      by_cases he : e.1 = []
+      · simp [he] at ih ⊢; exact ih
+      · simp [he] at ih ⊢; exact ih
+  unfold dictInsert
+  split
+  · exact hmap
+  · simp [List.filter_append]
+
+theorem dictInsert_new (d : List (Bytes × Bytes)) (k v : Bytes) (h : k ∉ d.map (·.1)) :
+    dictInsert d k v = d ++ [(k, v)] := by
+  unfold dictInsert
+  have : d.any (fun e => e.1 == k) = false := by
+    rw [List.any_eq_false]
+    intro e he hk
+    exact h (List.mem_map.mpr ⟨e, he, by simpa using hk⟩)
+  simp [this]
+
+theorem foldl_dictInsert_filter (items : List Item) : ∀ (d : List (Bytes × Bytes)),
+    ((d.filter (fun e => e.1 ≠ [])).map (·.1) ++ (itemsPairs items).map (·.1)).Nodup →
+    (items.foldl (fun d it => dictInsert d it.key it.value) d).filter (fun e => e.1 ≠ [])
+      = d.filter (fun e => e.1 ≠ []) ++ itemsPairs items := by
+  induction items with
+  | nil => intro d _; simp [itemsPairs]
+  | cons it rest ih =>
+    intro d hnd
+    simp only [List.foldl_cons]
+    by_cases hk : it.key = []
+    · have hp : itemsPairs (it :: rest) = itemsPairs rest := by simp [itemsPairs, hk]
+      rw [hp] at hnd ⊢
+      rw [ih _ (by rw [hk, dictInsert_empty_filter]; exact hnd), hk, dictInsert_empty_filter]
+    · have hp : itemsPairs (it :: rest) = (it.key, it.value) :: itemsPairs rest := by simp [itemsPairs, hk]
+      rw [hp] at hnd ⊢
+      have hnew : it.key ∉ d.map (·.1) := by
+        intro hmem
+        obtain ⟨e, he, hek⟩ := List.mem_map.mp hmem
+        have h1 : it.key ∈ (d.filter (fun e => e.1 ≠ [])).map (·.1) :=
+          List.mem_map.mpr ⟨e, List.mem_filter.mpr ⟨he, by simp [hek, hk]⟩, hek⟩
+        rw [List.nodup_append] at hnd
+        exact hnd.2.2 _ h1 _ (by simp) rfl
+      rw [dictInsert_new d _ _ hnew]
+      have hf : (d ++ [(it.key, it.value)]).filter (fun e => e.1 ≠ []) = d.filter (fun e => e.1 ≠ []) ++ [(it.key, it.value)] := by
+        simp [List.filter_append, hk]
+      rw [ih _ (by rw [hf]; simpa [List.append_assoc] using hnd), hf]
+      simp [List.append_assoc]
+
+/-- a file that satisfies `check` for `slots` with pairwise different URIs is loaded (as `cbor2.loads` does, empty keys
+dropped as `merge_single_cache_file` does) to exactly `slots`, in order -/
+theorem loads_of_check (eb : Nat) (slots : List (Bytes × Bytes)) (out : Bytes) (h : check eb slots out = true)
+    (hnd : (slots.map (·.1)).Nodup) :
+    (loadsCache out).map (fun d => d.filter (fun e => e.1 ≠ [])) = some slots := by
+  unfold check at h
+  split at h
+  · rename_i rest
+    simp only [Bool.and_eq_true] at h
+    obtain ⟨items, hw, hp⟩ := walk_of_check eb _ _ _ _ _ h.2
+    simp only [loadsCache, readCache, hw, Option.map_some]
+    rw [foldl_dictInsert_filter items [] (by simpa [hp] using hnd), hp]; simp
+  · simp at h
+
+
+
+theorem addSlots_append (eb : Nat) (a b : List (Bytes × Bytes)) : ∀ s,
+    addSlots eb s (a ++ b) = (addSlots eb s a).bind (fun s' => addSlots eb s' b) := by
+  induction a with
+  | nil => intro s; rfl
+  | cons e rest ih =>
+    intro s
+    obtain ⟨u, p⟩ := e
+    simp only [List.cons_append, addSlots]
+    cases h : addSlot eb s u p with
+    | error err => rfl
+    | ok s1 => simp only [bind, Except.bind]; exact ih s1
+
+/-- the (URI, payload) pairs `merge_single_cache_file` takes from one input file -/
+def filePairs (f : Bytes) : List (Bytes × Bytes) := ((loadsCache f).getD []).filter (fun e => e.1 ≠ [])
+
+theorem mergeFiles_addSlots (eb : Nat) (files : List Bytes) : ∀ s s', mergeFiles eb s files = .ok s' →
+    (∀ f ∈ files, (loadsCache f).isSome = true) ∧ addSlots eb s (files.flatMap filePairs) = .ok s' := by
+  induction files with
+  | nil => intro s s' h; simpa [mergeFiles, addSlots] using h
+  | cons f rest ih =>
+    intro s s' h
+    simp only [mergeFiles] at h
+    cases h1 : mergeFile eb s f with
+    | error e => simp [h1, bind, Except.bind] at h
+    | ok s1 =>
+      simp only [h1, bind, Except.bind] at h
+      obtain ⟨hall, hadd⟩ := ih s1 s' h
+      unfold mergeFile at h1
+      cases hl : loadsCache f with
+      | none => simp [hl] at h1
+      | some d =>
+        simp only [hl] at h1
+        refine ⟨?_, ?_⟩
+        · intro g hg
+          simp only [List.mem_cons] at hg
+          rcases hg with rfl | hg
+          · simp [hl]
+          · exact hall g hg
+        · simp only [List.flatMap_cons]
+          rw [addSlots_append]
+          have : filePairs f = d.filter (fun e => e.1 ≠ []) := by simp [filePairs, hl]
+          rw [this, h1]
+          exact hadd
+
+/-- `cache_create merge` writes what `from_payloads` would write for the concatenation of the input files' slots -/
+theorem merge_eq_fromPayloads (eb : Nat) (files : List Bytes) (out : Bytes) (h : merge eb files = .ok out) :
+    (∀ f ∈ files, (loadsCache f).isSome = true) ∧ fromPayloads eb (files.flatMap filePairs) = .ok out := by
+  unfold merge at h
+  cases h1 : mergeFiles eb {} files with
+  | error e => simp [h1, bind, Except.bind] at h
+  | ok s' =>
+    simp only [h1, bind, Except.bind, pure, Except.pure, Except.ok.injEq] at h
+    obtain ⟨hall, hadd⟩ := mergeFiles_addSlots eb files {} s' h1
+    exact ⟨hall, by simp [fromPayloads, hadd, bind, Except.bind, pure, Except.pure, h]⟩
+
+theorem filePairs_of_check (eb : Nat) (slots : List (Bytes × Bytes)) (f : Bytes) (h : check eb slots f = true)
+    (hnd : (slots.map (·.1)).Nodup) : filePairs f = slots := by
+  have := loads_of_check eb slots f h hnd
+  unfold filePairs
+  cases hl : loadsCache f with
+  | none => simp [hl] at this
+  | some d => simpa [hl] using this
+
 end SuitVerif.Cache
